@@ -104,7 +104,19 @@ def build():
     n16 = rules.r16_first_char_map_or(f)
     if n16 != 1:
         raise LostAnchor("directive scan: first-character computation not found (have %d)" % n16)
-    f.replace_all(r"(\w+)\s*\.as_str\(\)\s*\.to_lowercase\(\)\s*\.trim\(\)", r"str_trim(str_to_lowercase(\1.as_str()).as_str())", "R9", regex=True, min_count=1)
+    # R9: postfix chain of str methods without Verus specs on `<m>.as_str()` -> nested shim calls, in the order written
+    for h in re.finditer(r"(\w+)\s*\.as_str\(\)((?:\s*\.(?:to_lowercase|trim)\(\))+)", f.mbody):
+        expr = "%s.as_str()" % h.group(1)
+        is_string = False
+        for meth in re.findall(r"\.(to_lowercase|trim)\(\)", h.group(2)):
+            arg = expr + (".as_str()" if is_string else "")
+            if meth == "to_lowercase":
+                expr, is_string = "str_to_lowercase(%s)" % arg, True
+            else:
+                expr, is_string = "str_trim(%s)" % arg, False
+        if is_string:
+            expr += ".as_str()"
+        f.replace(h.start(), h.end(), expr, "R9", "str method chain %s -> shim calls" % h.group(2).strip())
     rules.r9_method_to_fn(f, "trim", "str_trim")
     rules.r9_method_to_fn(f, "is_empty", "str_is_empty")
     f.replace_all(r"str_trim\(&line\)", "str_trim(line)", "R9", regex=False) if False else None
